@@ -261,6 +261,7 @@ func (c *Check) Finalize(fin Finish) int {
 			}
 		}
 	}
+	printed := 0
 	for _, o := range failing {
 		os.MkdirAll(vdir, 0o755)
 		h := sha1.Sum([]byte(o.Key()))
@@ -272,6 +273,14 @@ func (c *Check) Finalize(fin Finish) int {
 		}
 		b, _ := json.MarshalIndent(rec, "", " ")
 		os.WriteFile(path, b, 0o644)
+		printed++
+		if !fin.Quiet && printed == 13 {
+			fmt.Printf("  … %d more reports (see the violation files)\n", len(failing)-12)
+		}
+		if !fin.Quiet && printed > 12 {
+			fmt.Printf("VIOLATION property=%s replay=%s\n", c.Prop, path)
+			continue
+		}
 		if !fin.Quiet {
 			fmt.Printf("  %s %s: %s\n      at %s\n      %s\n", strings.ToUpper(o.Status), o.Rule, o.Construct, o.Pos, o.Detail)
 			if o.Expected != "" || o.Observed != "" {
